@@ -29,7 +29,21 @@ def cases(rng, tier):
     for c in extra:
         c["family"] = "layout_compatible"
         c["opts"]["bm_host"] = True
-    return extra + out
+    # one struct name, one member list, different explicit layout attributes - generated one after the other on one worker
+    # thread with identical options: the asserted numbers are those of THIS module's declaration
+    variants = [("a: f32, b: f32", [("a", 0), ("b", 4)], 8), ("@size(16) a: f32, b: f32", [("a", 0), ("b", 16)], 20),
+                ("a: f32, @align(16) b: f32", [("a", 0), ("b", 16)], 32), ("@size(8) a: f32, b: f32", [("a", 0), ("b", 8)], 12)]
+    pairs = []
+    for o in ({"bm_vertex": False, "bm_host": True, "encase": False, "serde": False, "mv": "Rust"},
+              {"bm_vertex": False, "bm_host": True, "encase": False, "serde": True, "mv": "Glam"}):
+        for nm in ("Light", "LightX_naga_oil_mod_XMFRGGX", "Light"):
+            for decl, offs, size in variants:
+                w = ("struct %s { %s }\n@group(0) @binding(0) var<storage, read> l: %s;\n@compute @workgroup_size(1) fn main() { _ = l.a; }\n"
+                     % (nm, decl, nm))
+                pairs.append({"wgsl": w, "family": "same_name_different_layout", "opts": dict(o), "needs_encase": False,
+                              "truth": [{"name": nm, "host": True, "rts": False, "size": size, "offsets": offs,
+                                         "members": [("a", "(SScalar PF32)"), ("b", "(SScalar PF32)")]}]})
+    return pairs + extra + out
 
 
 ELIGIBLE = lambda c: c["opts"].get("bm_host") and not (c["opts"].get("mv") == "Nalgebra" and c["opts"].get("encase"))
